@@ -5,6 +5,7 @@ E01  accfg-insert-resets: an inserted reset never changes what a launch observes
      configuration states has ended in a reset (contract `resets`).
 E03  convert-linalg-to-dart: the streamed operands / patterns are the used operands / their indexing maps; same scalar body.
 E04  dart-fuse-operations: the function returns the same tensors before and after fusion (tensor-level meaning in spec/Dart.tla).
+E05  phs-remove-one-option-switches: the pruned PE has exactly the switches the software configures and computes every merged kernel.
 E02  snax-to-func / snax-lower-mcycle: lowering of cluster barriers and cycle-counter reads is an event renaming: the lowered
      program performs the same side effects in the same order, every snax.cluster_sync_op becomes exactly one call of
      snax_cluster_hw_barrier on every path (contract `effects` after renaming).
@@ -530,11 +531,112 @@ def _prod(xs):
     return r
 
 
+# ---------------------------------------------------------------------------------------------------------------------------
+# E05 phs-remove-one-option-switches: the hardware view of a merged PE against what the software configures
+
+def run_pehw(pid, tier, seed):
+    """E05: after the real phs-remove-one-option-switches the PE has exactly the switches the software side configures (the decoded
+    values of C20, one per switch that really selects something), in the same order, and under those values it computes every merged
+    kernel (PE.tla EvalPE on the pruned graph)."""
+    import random
+
+    from xdsl.dialects import linalg
+    from xdsl.dialects.builtin import ModuleOp
+    from xdsl.pattern_rewriter import PatternRewriter
+
+    from checks_pe import export_pe, kernel_record, kernel_text, make_library, tlc_histories
+    from objs import run_obj_batch
+    from snaxc.dialects import phs
+    from snaxc.phs.combine import append_to_abstract_graph
+    from snaxc.phs.decode import decode_abstract_graph
+    from snaxc.phs.encode import convert_generic_body_to_phs
+    from snaxc.transforms.phs.remove_one_option_switches import PhsRemoveOneOptionSwitchesPass
+    rep = ExtraReport(pid, tier, seed)
+    known = KnownFindings()
+    rng = random.Random(seed)
+    nk, maxlen = (7, 3) if tier == "quick" else (9, 4)
+    lib = make_library(rng, nk)
+    r, hists = tlc_histories(pid, nk, maxlen)
+    rep.add_tlc(r)
+    if tier != "quick":
+        rng.shuffle(hists)
+        hists = hists[:3000]
+    ctx = repo.opt_main().ctx
+    keep, cases = [], []
+
+    def generic_of(k):
+        mod = repo.parse(kernel_text(k))
+        keep.append(mod)
+        return [o for o in mod.walk() if isinstance(o, linalg.GenericOp)][0]
+    pruned_something = 0
+    for h in hists:
+        ks = [lib[i - 1] for i in h]
+        if len({(k[0], k[1]) for k in ks}) != 1:
+            continue
+        name = "hist:" + "-".join(str(i) for i in h)
+        try:
+            gens = [generic_of(k) for k in ks]
+            pes = [convert_generic_body_to_phs(g, "acc", PatternRewriter(g)) for g in gens]
+            g0 = generic_of(ks[0])
+            abstract = convert_generic_body_to_phs(g0, "acc", PatternRewriter(g0))
+            for j in range(1, len(ks)):
+                gj = generic_of(ks[j])
+                append_to_abstract_graph(convert_generic_body_to_phs(gj, "acc", PatternRewriter(gj)), abstract)
+            decoded = []
+            for pe in pes:
+                try:
+                    decoded.append({"ok": 1, "sw": [int(x) for x in decode_abstract_graph(abstract, pe)]})
+                except Exception:
+                    decoded.append({"ok": 0, "sw": []})
+        except Exception:
+            rep.skipped += 1       # merging / decoding problems are C20's business
+            continue
+        G = export_pe(abstract)
+        hwmod = ModuleOp([abstract.clone()])
+        try:
+            PhsRemoveOneOptionSwitchesPass().apply(ctx, hwmod)
+            hwmod.verify()
+        except Exception as e:
+            rep.evaluations += 1
+            rep.violation(name, f"phs-remove-one-option-switches raised {type(e).__name__}: {str(e)[:160]}",
+                          {"kernels": [kernel_text(k) for k in ks], "merged": str(abstract), "exception": traceback.format_exc(limit=6)})
+            continue
+        hwpe = [o for o in hwmod.walk() if isinstance(o, phs.PEOp)][0]
+        H = export_pe(hwpe)
+        pruned_something += H["nsw"] < G["nsw"]
+        cases.append({"kind": "pehw", "name": name, "abstract": G, "hw": H, "kernels": [kernel_record(k) for k in ks], "decoded": decoded,
+                      "text": str(abstract), "after": str(hwpe), "ktexts": [kernel_text(k) for k in ks]})
+    rep.extra["histories_with_a_removed_switch"] = pruned_something
+    if cases and pruned_something == 0:
+        raise MachineryError("no merged PE had a one-option switch: the check would be vacuous")
+    rep.rule = (f"every merge history of length <= {maxlen} over a per-run library of {nk} kernels (HistGen.tla, as C20) is replayed on the real merge / "
+                "decode API; the merged PE then goes through the real phs-remove-one-option-switches; TLC checks on the exported pruned graph that no "
+                "one-option choose is left, that it has exactly the switches the software configures (RealSwitches of the merged graph) and that under "
+                "the decoded values it computes every merged kernel on all data in -2..2 (ObjCheck kind pehw)")
+    for lo in range(0, len(cases), 1500):
+        chunk = cases[lo:lo + 1500]
+        r, verdicts = run_obj_batch(pid, chunk, tag=f"hw{lo}")
+        rep.add_tlc(r)
+        for tid, v in verdicts.items():
+            c = chunk[tid - 1]
+            rep.evaluations += 1
+            rep.traces += 1
+            if c["hw"]["nsw"] < c["abstract"]["nsw"]:
+                rep.nontrivial.add(c["name"])
+            if len(rep.samples) < 2 and c["hw"]["nsw"] < c["abstract"]["nsw"]:
+                rep.samples.append({"history": c["name"], "merged": c["text"], "hardware_view": c["after"], "decoded": c["decoded"]})
+            if v != "ok":
+                rep.violation(c["name"], f"clause {v} fails; decoded {c['decoded']}", {"kernels": c["ktexts"], "merged": c["text"], "after": c["after"], "clause": v})
+    return rep.finish(known)
+
+
 def run(pid: str, tier: str, seed: int, selftest=False, replay=None) -> int:
     if pid == "E03":
         return run_streamify(pid, tier, seed)
     if pid == "E04":
         return run_fuse(pid, tier, seed)
+    if pid == "E05":
+        return run_pehw(pid, tier, seed)
     if pid == "E01":
         return run_resets(pid, tier, seed)
     if pid == "E02":
